@@ -421,10 +421,27 @@ def stepHist (w : World) (ws : List String) : Option (World × String) :=
     | .ok l =>
       let opt := fun (o : Option String) => o.getD "-"
       let everyOther := (l.drop 1).zipIdx.filterMap fun p => if p.2 % 2 = 0 then some p.1 else none
+      let tailOf := fun (k : Nat) => String.ofList (adaptor.toList.drop k)
+      let two := fun (k : Nat) => ((tailOf k).splitOn "x").map String.toNat?
       let res :=
         if adaptor = "n1" then opt l[1]?
         else if adaptor = "nb1" then opt l.reverse[1]?
         else if adaptor = "ss" then showList id everyOther
+        else if adaptor.startsWith "nb" then
+          match (tailOf 2).toNat? with | some k => opt l.reverse[k]? | none => "bad-op"
+        else if adaptor.startsWith "nn" then
+          -- nth(a), then nth(b) on the same iterator
+          match two 2 with
+          | [some a, some b] => opt l[a]? ++ ";" ++ opt (l.drop (a + 1))[b]?
+          | _ => "bad-op"
+        else if adaptor.startsWith "n" then
+          match (tailOf 1).toNat? with | some k => opt l[k]? | none => "bad-op"
+        else if adaptor.startsWith "ss" then
+          -- skip(a).step_by(b)
+          match two 2 with
+          | [some a, some b] =>
+            showList id ((l.drop a).zipIdx.filterMap fun p => if b ≠ 0 ∧ p.2 % b = 0 then some p.1 else none)
+          | _ => "bad-op"
         else if adaptor = "tr" then showList id (l.take 2).reverse
         else if adaptor = "rs" then showList id (l.reverse.drop 1)
         else if adaptor = "last" then opt l.getLast?
